@@ -135,7 +135,8 @@ def heavy_copies(rows, quick, rng):
             bits = row["l"]
             lim = (1 if bits == 256 else 0) if quick else (2 if bits == 256 else 1)
             special = "s=0" in cls
-            if special and budget[("g12s-s0", bits)] < (1 if bits == 256 else 0 if quick else 1):
+            # quick: the whole loop of a first nonce with s = 0 is recomputed on the g12sRetry lines (retry_copies) instead
+            if special and budget[("g12s-s0", bits)] < (0 if quick else 1):
                 budget[("g12s-s0", bits)] += 1
                 out.append(dict(row, hs=1, copy="sign"))
             if "seeded" in cls and not special and budget[("g12s", row["name"])] < lim and budget[("g12s-all", bits)] < (1 if quick else 6):
